@@ -78,7 +78,7 @@ func c13(c *Ctx) {
 				continue
 			}
 			fi := -1
-			switch sc.Name() {
+			switch engine.ShortName(sc) {
 			case "Sprintf", "Errorf":
 				fi = 0
 			case "Fprintf":
@@ -302,7 +302,7 @@ func c13(c *Ctx) {
 						return false
 					}
 					src, ok := call.Call.Args[1].(*ssa.Call)
-					return ok && src.Call.StaticCallee() != nil && src.Call.StaticCallee().Name() == "getAll"
+					return ok && src.Call.StaticCallee() != nil && engine.ShortName(src.Call.StaticCallee()) == "getAll"
 				}
 				appendsFrom := func(start *ssa.BasicBlock) (must bool, may bool) {
 					// walk until the loop header (block of the lookup's loop) is re-entered
